@@ -120,8 +120,10 @@ def dtype_out(ctx, R="R-C03-dtype-out"):
             src = astq.text(a.value).replace(" ", "")
             ok = "dtype=self._ret_dtype" in src
             ctx.check(ok, R, f, a, "%s allocates / derives its result with the utterance's dtype" % name, "%s builds its result as %s" % (name, astq.text(a.value)[:80]))
+        dtf = DT(prog, f, attr_tags=tags)
         for r in astq.returns_of(f):
-            ctx.check(astq.is_name(r.value, "coeffs"), R, f, r, "%s returns that array" % name, "%s returns %s" % (name, astq.text(r.value)))
+            okr = astq.is_name(r.value, "coeffs") or (r.value is not None and dtf.of(r.value) == {"RET"})
+            ctx.check(okr, R, f, r, "%s returns that array (or another array of the utterance's dtype)" % name, "%s returns %s" % (name, astq.text(r.value)))
         ctx.check("self.num_coeffs" in " ".join(astq.text(a.value) for a in allocs), R, f, allocs[0], "%s results have num_coeffs columns" % name, structural=True)
 
 
